@@ -354,6 +354,22 @@ struct Corpus {
             if (std::string(op) != "+") { P(std::string("chain:") + op, pre + "if " + e + " then 0(1) else 0(2) }\n"); P(std::string("chain:") + op, pre + "while " + e + " do { x := 0; y := 0; g := 0; a[1] := 0; a[2] := 0; i := 1 }; 0(x + i) }\n"); }
           }
         }
+        // logical operators over operands that are not 0/1, used where only zero / non-zero matters: under ~, as a condition, as an operand of another and/or
+        {
+          std::vector<std::string> tv = {"x", "z", "g", "a[1]", "id(x)", "(x - 5)", "(x + y)", "id(z)", "(~x)", "(~z)"};
+          std::vector<std::string> E;
+          for (size_t i = 0; i < tv.size(); i++) for (size_t j = 0; j < tv.size(); j++) { if ((i * 7 + j) % 3 == 0) E.push_back(tv[i] + " and " + tv[j]); if ((i * 5 + j) % 3 == 1) E.push_back(tv[i] + " or " + tv[j]); }
+          for (size_t i = 0; i < tv.size(); i++) { E.push_back(tv[i] + " and " + tv[(i + 3) % tv.size()] + " and " + tv[(i + 5) % tv.size()]); E.push_back("(" + tv[i] + " or " + tv[(i + 1) % tv.size()] + ") and " + tv[(i + 4) % tv.size()]);
+            E.push_back(tv[i] + " or (" + tv[(i + 2) % tv.size()] + " and " + tv[(i + 7) % tv.size()] + ")"); E.push_back("(~(" + tv[i] + " and " + tv[(i + 6) % tv.size()] + ")) or " + tv[(i + 1) % tv.size()]); }
+          std::string pre = "var g; array a[4];\nfunc id(val n) is return n\nproc main() is var x; var y; var z; { x := 5; y := 9; z := 0; g := 17; a[1] := 33; ";
+          for (auto &e : E) {
+            P("truth:not", pre + "0(~(" + e + ")) }\n");
+            P("truth:notnot", pre + "0('0' + (~(~(" + e + ")))) }\n");
+            P("truth:if", pre + "if " + e + " then 0(1) else 0(2) }\n");
+            P("truth:while", pre + "while " + e + " do { x := 0; g := 0; a[1] := 0; y := 0 - 5 }; 0(x + y) }\n");
+            P("truth:assign-not", pre + "y := (~(" + e + ")) + (~(~(" + e + "))); 0(y) }\n");
+          }
+        }
         P("sys:val-named", "val exit = 0; val put = 1; val get = 2;\nproc main() is var c; { c := get(0); put(c, 0); put('!', 0); exit(c + 1) }\n");
         P("sys:val-named", "val put = 1;\nproc out(val c) is put(c, 0)\nproc main() is { out('a'); out('b'); 0(0) }\n");
         P("sys:val-named", "val get = 2; val instream = 0;\nfunc rd() is return get(instream)\nproc main() is 0(rd() + rd())\n");
@@ -387,6 +403,45 @@ struct Corpus {
               else { decl += "array " + nm + "[" + std::to_string(2 + k) + "];\n"; init += nm + "[0] := " + std::to_string(30 + k) + "; " + nm + "[" + std::to_string(1 + k) + "] := " + std::to_string(40 + k) + "; "; sum = "(" + sum + " + (" + nm + "[0] + " + nm + "[" + std::to_string(1 + k) + "]))"; } }
             P("globals:order", decl + "proc main() is { " + init + "0(" + sum + ") }\n");
           } }
+      }
+      // F15: the first statement of a body (directly after the prologue) and the statement directly after a loop / a conditional (directly after a label):
+      // every statement kind x every kind of leading operand (formal, local, global, element, call, constant) x frame shapes (no frame, formals only, locals, both)
+      {
+        std::vector<std::pair<std::string, std::string>> frames = {{"", ""}, {"val p", ""}, {"", "var l;"}, {"val p", "var l;"}, {"val p, val q", "var l; var m;"}};
+        for (size_t fi = 0; fi < frames.size(); fi++) {
+          bool hasP = frames[fi].first.find("val p") != std::string::npos, hasL = frames[fi].second.find("var l;") != std::string::npos;
+          std::vector<std::string> lead = {"g", "a[1]", "id(g)", "3"}; if (hasP) lead.push_back("p"); if (hasL) lead.push_back("l");
+          std::string actuals = frames[fi].first.empty() ? "" : frames[fi].first.find("val q") != std::string::npos ? "3, 4" : "3";
+          for (auto &x : lead) {
+            std::string v = x == "3" ? "g" : x;   // a counter that can be assigned
+            bool assignable = x != "id(g)" && x != "3";
+            std::vector<std::string> firsts;
+            if (assignable && x != "l") firsts.push_back("while " + x + " < 6 do " + x + " := " + x + " + 1");
+            if (assignable && x != "l") firsts.push_back("while ~(" + x + " = 6) do { h := h + " + x + "; " + x + " := " + x + " + 1 }");
+            firsts.push_back("if " + x + " < 4 then h := 1 else h := 2");
+            firsts.push_back("if " + x + " = 3 then skip else h := 5");
+            firsts.push_back("h := " + x + " + " + x);
+            firsts.push_back("out(" + x + ")");
+            firsts.push_back("{ h := " + x + "; h := h + 1 }");
+            firsts.push_back("a[2] := " + x);
+            for (auto &st : firsts) {
+              std::string pre = hasL ? "" : "";
+              // locals cannot be read before they are written: a body that starts with a statement reading l is only generated behind an assignment in a second variant
+              std::string body1 = st + "; 1('0' + h, 0); 1('0' + g, 0); 0((g + h) + a[1])";
+              if (st.find(" l") == std::string::npos && st.find("(l") == std::string::npos && st.find("l ") != 0)
+                P("first-statement", "var g; var h; array a[4];\nfunc id(val n) is return n\nproc out(val c) is 1('a' + c, 0)\nproc t(" + frames[fi].first + ") is " + frames[fi].second + "\n{ " + body1 + " }\nproc main() is { g := 3; h := 0; a[1] := 3; a[2] := 0; t(" + actuals + ") }\n");
+              // the same statement directly after a loop and directly after a conditional
+              std::string setl = hasL ? "l := 3; " : "";
+              P("after-label", "var g; var h; array a[4];\nfunc id(val n) is return n\nproc out(val c) is 1('a' + c, 0)\nproc t(" + frames[fi].first + ") is " + frames[fi].second + "\n{ " + setl + "while h < 2 do h := h + 1; " + st + "; if h = 9 then skip else h := h + 1; " + st + "; 1('0' + h, 0); 0((g + h) + a[1]) }\nproc main() is { g := 3; h := 0; a[1] := 3; a[2] := 0; t(" + actuals + ") }\n");
+            }
+          }
+        }
+        // a loop as the first statement whose condition starts with a formal or local, looping several times, in procedures and functions
+        for (const char *cond : {"n < g", "n ~= g", "(n + 1) <= g", "~(n = g)", "g > n", "(n < g) and (n < 9)", "id(n) < g"}) for (int useLocal = 0; useLocal < 2; useLocal++) {
+          std::string c = cond;
+          P("loop-first", "var g; var h;\nfunc id(val n) is return n\nproc show(val n) is " + std::string(useLocal ? "var k;" : "") + "\n{ while " + c + " do { 1('0' + g, 0); g := g - 1 }; " + (useLocal ? "k := g; 1('0' + k, 0)" : "1('!', 0)") + " }\nproc main() is { g := 5; show(2); 0(g) }\n");
+          P("loop-first", "var g;\nfunc id(val n) is return n\nfunc cnt(val n) is var k;\n{ while " + c + " do g := g - 1; k := g + n; return k }\nproc main() is { g := 6; 0(cnt(2) + cnt(1)) }\n");
+        }
       }
       // F12: every ordered pair (thorough: triple) of simple statements over a vocabulary of assignments and calls whose sources and targets include each
       // constant subscript 0..3 of a global and of a formal array: adjacent-statement interactions (peephole removal of reloads, register reuse)
